@@ -185,4 +185,4 @@ def obligations(ctx: Ctx):
         Ob(f"{P}.R3.ident", "R", "bare identifier-class strings re-lex to one IDENTIFIER token (no `vs`/literal token inside)", LX.FUNCS_EMIT + LX.FUNCS_LEX, partial(LX.ob_ident, oid=f"{P}.R3", which="ident")),
         Ob(f"{P}.R3.expr", "R", "bare operator expressions re-lex to IDENTIFIER / Unicode operator tokens only", LX.FUNCS_EMIT + LX.FUNCS_LEX, partial(LX.ob_expr, oid=f"{P}.R3")),
         Ob(f"{P}.B1", "B", "every combination of lenient rewrites converges on the canonical bytes; canonical text is in the strict profile", ["octave_mcp.core.parser:parse_with_warnings", "octave_mcp.core.emitter:emit"], ob_b1, timeout=3000),
-    ] + LX.parse_layout_obs(P)
+    ] + LX.parse_layout_obs(P) + LX.emit_layout_obs(P)
